@@ -75,6 +75,33 @@ def gen_spec(r: apigen.Rng, *, t3=False, ext=None, nested_parent_hazard=None):
     use_dep = (not t3) and r.maybe(0.6)
     if use_dep:
         shared["deps"].append(dep["name"]); lib["deps"].append(dep["name"])
+    # a file that holds ONLY enums (enums.proto layout), a file whose messages are reachable ONLY through
+    # resource references, and a file of a sub-package of the target package
+    enumsf = {"name": "acme/lib/v1/enums.proto", "package": PKG, "deps": [], "resdefs": [], "enums": r.sample(["Genre", "Rating", "Format"], r.randint(1, 3)),
+              "messages": [], "services": []} if r.maybe(0.6) else None
+    resf = {"name": "acme/lib/v1/resources.proto", "package": PKG, "deps": [], "resdefs": [], "enums": [], "messages": [], "services": []} if r.maybe(0.55) else None
+    subf = {"name": "acme/lib/v1/sub/widgets.proto", "package": PKG + ".sub", "deps": [], "resdefs": [], "enums": ["Shape"], "messages": [
+        _msg("Widget", [{"name": "name", "t": "string"}, {"name": "shape", "enum": f".{PKG}.sub.Shape"}], enums=["Finish"] if r.maybe(0.5) else []),
+        _msg("Gadget", [{"name": "w", "msg": f".{PKG}.sub.Widget", "repeated": True}])], "services": []} if r.maybe(0.4) else None
+    if enumsf:
+        shared["deps"].append(enumsf["name"]); lib["deps"].append(enumsf["name"])
+    if resf:
+        if enumsf:
+            resf["deps"].append(enumsf["name"])
+        lib["deps"].append(resf["name"])
+        for rn in r.sample(["Depot", "Vault"], r.randint(1, 2)):
+            rm = _msg(rn, resource=[f"lib.example.com/{rn}", f"{rn.lower()}s/{{{rn.lower()}}}"])
+            if r.maybe(0.5):
+                rm["nested"].append(_msg("Spec", [{"name": "size", "t": "int32"}]))
+                rm["fields"].append({"name": "spec", "msg": f".{PKG}.{rn}.Spec"})
+            if r.maybe(0.4):
+                rm["enums"].append("Tier")
+            if enumsf and r.maybe(0.6):
+                rm["fields"].append({"name": "genre", "enum": f".{PKG}.{r.pick(enumsf['enums'])}"})
+            rm["fields"].insert(0, {"name": "name", "t": "string"})
+            resf["messages"].append(rm)
+    if subf:
+        lib["deps"].append(subf["name"])
     # ---- data types
     names = list(DATA_NAMES); r.shuffle(names)
     ndata = r.randint(4, 8)
@@ -97,9 +124,8 @@ def gen_spec(r: apigen.Rng, *, t3=False, ext=None, nested_parent_hazard=None):
         data.append(m)
     for e in r.sample(ENUM_NAMES, r.randint(1, 3)):
         (shared if r.maybe(0.5) else lib)["enums"].append(e)
-    spec = {"files": [shared, lib], "target_package": PKG, "version": PKG, "listed": [], "internal": False}
-    if use_dep:
-        spec["files"].insert(0, dep)
+    spec = {"files": [x for x in (dep if use_dep else None, enumsf, shared, resf, subf, lib) if x], "target_package": PKG, "version": PKG,
+            "listed": [], "internal": False}
     if r.maybe(0.5):
         shared["resdefs"].append(["other.example.com/Thing", "things/{thing}"])
     # extra file: never referenced from lib/shared; sometimes carries a service of its own
@@ -115,7 +141,7 @@ def gen_spec(r: apigen.Rng, *, t3=False, ext=None, nested_parent_hazard=None):
     def type_pools(exclude_hazard=True):
         msgs, enums = [], []
         for f in spec["files"]:
-            if f is extra:
+            if f is extra or f is resf:          # resf: reachable through resource references only
                 continue
             for full, m in _walk(f["messages"], f["package"]):
                 msgs.append(full)
@@ -129,14 +155,20 @@ def gen_spec(r: apigen.Rng, *, t3=False, ext=None, nested_parent_hazard=None):
                 [x[0] for f in spec["files"] for x in f["resdefs"]] + ["nowhere.example.com/Ghost"]
 
     def toplevel(full):
-        return full.count(".") == len(PKG.split("."))
+        return any(full == f"{f['package']}.{m['name']}" for f in spec["files"] for m in f["messages"]) or \
+            any(full == f"{f['package']}.{e}" for f in spec["files"] for e in f["enums"])
+
+    def top_of(full):
+        c = [f"{f['package']}.{m['name']}" for f in spec["files"] for m in f["messages"]
+             if full == f"{f['package']}.{m['name']}" or full.startswith(f"{f['package']}.{m['name']}.")]
+        return max(c, key=len) if c else full
 
     def fill(m, full, own_file, budget, nested_ok):
         """random fields for message m (declared as `full`)"""
         msgs, enums = type_pools()
         if not nested_ok:
             # references to a nested type only from inside its own top-level message
-            top = ".".join(full.split(".")[:len(PKG.split(".")) + 1])
+            top = top_of(full)
             msgs = [x for x in msgs if toplevel(x) or x.startswith(top + ".") or not x.startswith(PKG + ".")]
             enums = [x for x in enums if toplevel(x) or x.startswith(top + ".") or not x.startswith(PKG + ".")]
         k = 0
@@ -145,13 +177,14 @@ def gen_spec(r: apigen.Rng, *, t3=False, ext=None, nested_parent_hazard=None):
             k += 1
             c = r.random()
             fn = f"f{k}"
+            one = {"oneof": "choice"} if r.maybe(0.18) else {}      # oneof members are ordinary edges
             if c < 0.3:
-                m["fields"].append({"name": fn, "t": r.pick(SCALARS), "repeated": r.maybe(0.2)})
+                m["fields"].append(dict({"name": fn, "t": r.pick(SCALARS), "repeated": (not one) and r.maybe(0.2)}, **one))
             elif c < 0.6 and msgs:
                 tgt = full if r.maybe(0.12) else r.pick(msgs)       # self-recursion now and then
-                m["fields"].append({"name": fn, "msg": "." + tgt, "repeated": r.maybe(0.3)})
+                m["fields"].append(dict({"name": fn, "msg": "." + tgt, "repeated": (not one) and r.maybe(0.3)}, **one))
             elif c < 0.72 and enums:
-                m["fields"].append({"name": fn, "enum": "." + r.pick(enums), "repeated": r.maybe(0.2)})
+                m["fields"].append(dict({"name": fn, "enum": "." + r.pick(enums), "repeated": (not one) and r.maybe(0.2)}, **one))
             elif c < 0.8 and msgs:
                 m["fields"].append({"name": fn, "map": "." + r.pick(msgs)})
             elif c < 0.86:
@@ -219,9 +252,12 @@ def gen_spec(r: apigen.Rng, *, t3=False, ext=None, nested_parent_hazard=None):
         starter = _msg("InsertThingRequest", [{"name": "zone", "t": "string", "opreq": "zone"}, {"name": "thing", "msg": "." + r.pick(data_top)}])
         lib["messages"].append(starter)
         r.pick(lib["services"][:-1])["methods"].append({"name": "InsertThing", "input": f".{PKG}.InsertThingRequest", "output": f".{PKG}.Operation", "opservice": "RegionOperations"})
-    # a file in shared may not reference lib (no import cycle): drop such fields
-    lib_names = {full for full, _ in _walk(lib["messages"], PKG)} | {f"{PKG}.{e}" for e in lib["enums"]}
-    lib_names |= {f"{full}.{e}" for full, m in _walk(lib["messages"], PKG) for e in m["enums"]}
+    # shared may not reference lib or the sub-package file (no import cycle / not imported): drop such fields
+    lib_names = set()
+    for lf in (lib, subf):
+        if lf:
+            lib_names |= {full for full, _ in _walk(lf["messages"], lf["package"])} | {f"{lf['package']}.{e}" for e in lf["enums"]}
+            lib_names |= {f"{full}.{e}" for full, m in _walk(lf["messages"], lf["package"]) for e in m["enums"]}
     for full, m in _walk(shared["messages"], PKG):
         m["fields"] = [fd for fd in m["fields"] if not any((fd.get(k) or "").lstrip(".") in lib_names for k in ("msg", "enum", "map"))]
     # ---- the listed subset
@@ -229,6 +265,9 @@ def gen_spec(r: apigen.Rng, *, t3=False, ext=None, nested_parent_hazard=None):
     k = r.randint(1, min(5, len(meths)))
     spec["listed"] = sorted(r.sample(meths, k))
     spec["internal"] = r.maybe(0.5)
+    if t3:
+        spec["rest"] = r.maybe(0.45)          # transport=grpc+rest (every method carries an http rule)
+        spec["mixins"] = r.maybe(0.4)         # Locations + Operations mixins in the service yaml
     return spec
 
 
@@ -285,6 +324,8 @@ def build_files(spec):
                     else:
                         m.map_field(fd["name"], "string", "int32")
                     continue
+                if fd.get("oneof"):
+                    kw["oneof"] = fd["oneof"]
                 if fd.get("msg"):
                     pf = m.field(fd["name"], "message", type_name=fd["msg"], repeated=fd.get("repeated", False), **kw)
                 elif fd.get("enum"):
@@ -344,11 +385,12 @@ class Yaml:
             pass
 
 
-def make_request(spec, files, yaml_path=None, transport="grpc"):
-    params = f"transport={transport},autogen-snippets=false"
+def make_request(spec, files, yaml_path=None, transport="grpc", extra=""):
+    params = f"transport={transport},autogen-snippets=false" + extra
     if yaml_path:
         params += f",service-yaml={yaml_path}"
-    targets = [f for f, fs in zip(files, spec["files"]) if fs["package"] == spec["target_package"]]
+    targets = [f for f, fs in zip(files, spec["files"])
+               if fs["package"] == spec["target_package"] or fs["package"].startswith(spec["target_package"] + ".")]
     return apigen.request(files, params, targets=targets)
 
 # --------------------------------------------------------------------------------------------------
@@ -565,7 +607,18 @@ class Graph:
                                            "client_method_name": m.client_method_name} for m in s.methods.values()]}
                              for s in proto.services.values()],
                 "messages": [self.ids.get(v.ident, -1) for v in proto.all_messages.values()],
-                "enums": [self.ids.get(v.ident, -1) for v in proto.all_enums.values()]}
+                "enums": [self.ids.get(v.ident, -1) for v in proto.all_enums.values()],
+                "top_messages": [self.ids.get(v.ident, -1) for v in proto.messages.values()],
+                "top_enums": [self.ids.get(v.ident, -1) for v in proto.enums.values()],
+                "emitted": [x for v in proto.messages.values() for x in self._declared(v)] +
+                           [self.ids.get(v.ident, -1) for v in proto.enums.values()]}
+
+    def _declared(self, m):
+        """the classes _message.py.j2 writes for a top-level message: itself, its nested enums, its nested messages (recursively)"""
+        out = [self.ids.get(m.ident, -1)] + [self.ids.get(e.ident, -1) for e in m.nested_enums.values()]
+        for n in m.nested_messages.values():
+            out += self._declared(n)
+        return out
 
 
 def real_allowlist(g: Graph, listed):
@@ -652,6 +705,15 @@ def features(spec, d, listed, req_types):
                 if fld.type_name.lstrip(".") == t: fs.add("recursive-kept")
                 ref = fld.options.Extensions[d.resource_pb2.resource_reference]
                 if (ref.type or ref.child_type) in d.res_decl: fs.add("resource-ref-kept")
+    for t in req_types:
+        if t.startswith(PKG + ".sub."): fs.add("subpackage-type-kept")
+        if t in d.msgs and any(fld.HasField("oneof_index") and not fld.proto3_optional and fld.type_name for fld in d.msgs[t].field):
+            fs.add("oneof-member-edge")
+    for f in spec["files"]:
+        if f["package"].startswith(PKG) and not f["messages"] and not f["services"] and f["enums"]:
+            fs.add("enum-only-file-" + ("kept" if any(f"{PKG}.{e}" in req_types for e in f["enums"]) else "dropped"))
+        if f["name"].endswith("resources.proto"):
+            fs.add("reference-only-file-" + ("kept" if any(f"{PKG}.{m['name']}" in req_types for m in f["messages"]) else "dropped"))
     for f in spec["files"]:
         if f["package"] == PKG:
             names = [full for full, _ in _walk(f["messages"], PKG)] + [f"{PKG}.{e}" for e in f["enums"]]
@@ -756,9 +818,9 @@ def t2_api(ctx, r, spec, nsub, label, variants=None):
             ctx.unsupported += 1
             ctx.disagree("T2:c16.driver", f"driver refused: {[m for m in (mo_al, mo_pr, mo_in, mo_tp) if 'unsupported' in m or 'error' in m][:1]}", payload)
             continue
-        if not (mo_al["wf"] and mo_al["wf_addrs"]):
+        if not (mo_al["wf"] and mo_al["wf_addrs"] and mo_al.get("wf_services", False)):
             ctx.unsupported += 1
-            ctx.disagree("T2:c16.wf", "the extracted graph does not meet Api.wf / Api.wfAddrs (the theorems' hypothesis)", payload)
+            ctx.disagree("T2:c16.wf", "the extracted graph does not meet Api.wf / Api.wfAddrs / Api.wfServices (the theorems' hypotheses)", payload)
         if -1 in al_ids:
             ctx.disagree("T2:c16.allowlist", "the real allow-list holds an address no schema object carries", payload)
         if sorted(mo_al["allowlist"]) != al_ids:
@@ -862,6 +924,28 @@ def target_services(spec):
     return [(f, s) for f in spec["files"] if f["package"] == PKG for s in f["services"]]
 
 
+MIXIN_NAMES = {"get_location", "list_locations", "get_operation", "cancel_operation"}
+
+
+def with_mixins(spec, doc):
+    """service yaml + the Locations / Operations mixins (C17's mechanism; here: selective settings must not disturb them)"""
+    doc = dict(doc or {"type": "google.api.Service", "config_version": 3, "name": "lib.example.com"})
+    doc["apis"] = [{"name": f"{PKG}.{s['name']}"} for f, s in target_services(spec)] + \
+                  [{"name": "google.cloud.location.Locations"}, {"name": "google.longrunning.Operations"}]
+    doc["http"] = {"rules": [
+        {"selector": "google.cloud.location.Locations.GetLocation", "get": "/v1/{name=projects/*/locations/*}"},
+        {"selector": "google.cloud.location.Locations.ListLocations", "get": "/v1/{name=projects/*}/locations"},
+        {"selector": "google.longrunning.Operations.GetOperation", "get": "/v1/{name=operations/*}"},
+        {"selector": "google.longrunning.Operations.CancelOperation", "post": "/v1/{name=operations/*}:cancel", "body": "*"}]}
+    return doc
+
+
+def lib_doc(spec, listed=None, internal=None):
+    """the service yaml of one library variant; listed=None -> the FULL library"""
+    doc = None if listed is None else service_yaml(spec, listed, internal)
+    return with_mixins(spec, doc) if spec.get("mixins") else doc
+
+
 def call_plan(r, spec, codec):
     """one scripted call per RPC (same bytes for every library built from this API)"""
     plan = {}
@@ -873,7 +957,9 @@ def call_plan(r, spec, codec):
             path = f"/{PKG}.{s['name']}/{m['name']}"
             inp = m["input"].lstrip(".")
             req = rpc.rand_msg(r, codec, inp, p_set=0.7)
-            call = {"fqn": fq, "input": inp, "request_b64": codec.encode_b64(inp, req), "consume": "value", "path": path}
+            call = {"fqn": fq, "input": inp, "request_b64": codec.encode_b64(inp, req), "consume": "value", "path": path,
+                    "literal": {"name": r.pick(["shelves/s1", "x", "projects/p/things/t"])},
+                    "http_path": f"/v1/{s['name'].lower()}/{m['name']}"}
             out = m["output"].lstrip(".")
             if m.get("lro"):
                 d_resp = rpc.rand_msg(r, codec, codec_resolve(codec, m["lro"][0]), p_set=0.7)
@@ -891,9 +977,12 @@ def call_plan(r, spec, codec):
                 page = rpc.rand_msg(r, codec, out, p_set=0.9, force=("items",))
                 page.pop("next_page_token", None)
                 call["replies"] = [codec.encode_b64(out, page)]
+                call["reply_json"] = json.dumps(page)
                 call["consume"] = "pager"
             else:
-                call["replies"] = [codec.encode_b64(out, rpc.rand_msg(r, codec, out, p_set=0.7))]
+                rep = rpc.rand_msg(r, codec, out, p_set=0.7)
+                call["replies"] = [codec.encode_b64(out, rep)]
+                call["reply_json"] = json.dumps(rep)
             plan[fq] = call
     return plan
 
@@ -907,46 +996,72 @@ def codec_resolve(codec, name):
         return f"{PKG}.{name}"
 
 
-def run_library(spec, files, api, doc, plan, call_names):
-    """generate (with `doc` as service yaml, or the full library when None), import, observe, call.
+def has_sub(spec):
+    return any(f["package"] == PKG + ".sub" for f in spec["files"])
+
+
+def run_library(spec, files, api, doc, plan, call_names, deep=True):
+    """generate (with `doc` as service yaml), import, observe, call over sync gRPC, asyncio gRPC and REST.
     call_names: {fqn: python method name} for the calls to make."""
-    import gapic.utils as gu
+    transport = "grpc+rest" if spec.get("rest") else "grpc"
     if doc is None:
-        req = make_request(spec, files, None, transport="grpc+rest" if spec.get("rest") else "grpc")
-        res, err = genrun.try_generate(req)
+        res, err = genrun.try_generate(make_request(spec, files, None, transport=transport, extra=",metadata"))
     else:
         with Yaml(doc) as yp:
-            req = make_request(spec, files, yp, transport="grpc+rest" if spec.get("rest") else "grpc")
-            res, err = genrun.try_generate(req)
+            res, err = genrun.try_generate(make_request(spec, files, yp, transport=transport, extra=",metadata"))
     if err:
         return {"gen_error": err}
     root = genrun.materialise(res)
     try:
         pkg = "acme.lib_v1"
         ops = [{"op": "import_all", "package": pkg}, {"op": "proto_classes", "module": pkg + ".types"}]
+        sub_i = None
+        if has_sub(spec):
+            sub_i = len(ops)
+            ops.append({"op": "proto_classes", "module": pkg + ".sub.types"})
         svc_index = {}
         for f, s in target_services(spec):
             svc_index[s["name"]] = len(ops)
             ops.append({"op": "client_surface", "module": f"{pkg}.services.{snake(s['name'])}"})
         sess_index = {}
         for sk, svc in api.services.items():
-            calls = []
+            calls, rest_calls = [], []
             for m in svc.methods.values():
                 fq = f"{sk}.{m.name}"
                 if fq in call_names and fq in plan:
                     c = plan[fq]
-                    calls.append({"method": call_names[fq], "mode": "request-instance", "py_request": rpc.py_type(m.input),
-                                  "request_b64": c["request_b64"], "consume": c["consume"], "fqn": fq,
-                                  "call_kwargs": {"timeout": 9.0},
-                                  "script": {c["path"]: [{"replies": c["replies"]}]}})
+                    base = {"method": call_names[fq], "py_request": rpc.py_type(m.input), "request_b64": c["request_b64"],
+                            "consume": c["consume"], "fqn": fq, "call_kwargs": {"timeout": 9.0}}
+                    calls.append(dict(base, mode="request-instance", script={c["path"]: [{"replies": c["replies"]}]}))
+                    if deep and c["consume"] == "value":
+                        # what a caller writes by hand, as a SECOND call on the same client
+                        calls.append(dict(base, mode="request-literal-dict", request_literal=c["literal"], literal=True,
+                                          script={c["path"]: [{"replies": c["replies"]}]}))
+                    if "reply_json" in c:
+                        rest_calls.append(dict(base, mode="request-instance", script=[{"status": 200, "body": c["reply_json"]}]))
             if calls:
                 loc = rpc.py_locations(api, svc)
-                sess_index[sk] = (len(ops), calls)
-                ops.append({"op": "grpc_session", "client": loc["client"], "transport": loc["grpc"], "async": False, "calls": calls})
-        out = libhost.run(root, ops, timeout=300)
-        return {"import": out[0], "types": out[1], "surface": {k: out[i] for k, i in svc_index.items()},
+                kinds = {"grpc": {"op": "grpc_session", "client": loc["client"], "transport": loc["grpc"], "async": False, "calls": calls}}
+                if deep:
+                    acalls = [c for c in calls if not c.get("literal")]
+                    kinds["grpc_async"] = {"op": "grpc_session", "client": loc["async_client"], "transport": loc["grpc_asyncio"],
+                                           "async": True, "calls": acalls}
+                    if spec.get("rest") and rest_calls:
+                        kinds["rest"] = {"op": "rest_session", "client": loc["client"], "transport": loc["rest"], "calls": rest_calls}
+                for kind, o in kinds.items():
+                    sess_index[(sk, kind)] = (len(ops), o["calls"])
+                    ops.append(o)
+        out = libhost.run(root, ops, timeout=400)
+        types = out[1]
+        if sub_i is not None and "classes" in types and "classes" in out[sub_i]:
+            types = {"classes": types["classes"] + out[sub_i]["classes"], "all": types.get("all", [])}
+        md = None
+        for f in res.file:
+            if f.name.endswith("gapic_metadata.json"):
+                md = json.loads(f.content)
+        return {"import": out[0], "types": types, "surface": {k: out[i] for k, i in svc_index.items()},
                 "sessions": {k: (out[i], calls) for k, (i, calls) in sess_index.items()},
-                "files": sorted(f.name for f in res.file)}
+                "files": sorted(f.name for f in res.file), "metadata": md}
     finally:
         genrun.cleanup(root)
 
@@ -965,17 +1080,56 @@ def canon_call(res, codec, call):
         return x
     if "ok" in res:
         out["ok"] = norm(res["ok"])
-    out["server"] = [{"path": rec["path"], "requests": [codec.decode(call["input"], b) for b in rec["requests"]],
-                      "metadata": sorted([k, v] for k, v in rec["metadata"] if k.startswith("x-goog-request"))}
-                     for rec in res.get("server", [])]
+    srv = []
+    for rec in res.get("server", []):
+        if "verb" in rec:           # REST
+            try:
+                body = json.loads(rec["body"]) if rec["body"] else None
+            except ValueError:
+                body = rec["body"]
+            srv.append({"verb": rec["verb"], "path": rec["path"], "query": sorted(rec["query"].split("&")), "body": body})
+        else:
+            srv.append({"path": rec["path"], "requests": [codec.decode(call["input"], b) for b in rec["requests"]],
+                        "metadata": sorted([k, v] for k, v in rec["metadata"] if k.startswith("x-goog-request"))})
+    out["server"] = srv
     out["stubs"] = [[s[0], s[1]] for s in res.get("stubs", [])]
     return out
 
 
 def emitted_types(lib, d):
-    """proto full names of the classes the emitted types package defines (target package)"""
+    """proto full names of the classes the emitted types packages define (target package)"""
     cls = lib["types"].get("classes", [])
     return {c["full"] for c in cls if c["kind"] != "error"}, [c for c in cls if c["kind"] == "error" or not c.get("usable")]
+
+
+def metadata_oracle(ctx, spec, lib, full, want_rpcs, internal, listed, payload):
+    """gapic_metadata.json describes the surface the selective library really has"""
+    md = lib.get("metadata")
+    if not md:
+        ctx.fail("metadata-missing", "no gapic_metadata.json although the metadata option is set", payload)
+        return
+    present = {s["name"] for f, s in target_services(spec) if "classes" in lib["surface"][s["name"]]}
+    if set(md.get("services", {})) != present:
+        ctx.fail("metadata-surface", f"gapic_metadata services {sorted(md.get('services', {}))} != emitted {sorted(present)}", payload)
+    for sname, sd in md.get("services", {}).items():
+        surf = lib["surface"].get(sname, {}).get("classes", {})
+        for tname, cd in sd.get("clients", {}).items():
+            cls = cd.get("libraryClient")
+            if cls not in surf:
+                ctx.fail("metadata-surface", f"gapic_metadata names client class {cls} for {sname}/{tname}; the module defines {sorted(surf)}", payload)
+                continue
+            if set(cd.get("rpcs", {})) != want_rpcs.get(sname, set()):
+                ctx.fail("metadata-surface", f"gapic_metadata {sname}/{tname} lists RPCs {sorted(cd.get('rpcs', {}))}, expected {sorted(want_rpcs.get(sname, set()))}", payload)
+            for rpc_name, rd in cd.get("rpcs", {}).items():
+                fq = f"{PKG}.{sname}.{rpc_name}"
+                fcls = set(full["surface"].get(sname, {}).get("classes", {}).get(cls[4:] if cls.startswith("Base") else cls, []))
+                for mn in rd.get("methods", []):
+                    if mn.lstrip("_") not in fcls and mn not in fcls:
+                        continue        # the FULL library's metadata names it without having it either (C15's business)
+                    if mn not in surf[cls]:
+                        ctx.fail("metadata-surface", f"gapic_metadata {sname}/{tname}: {rpc_name} -> {mn}, which {cls} does not have", payload)
+                    if internal and (mn.startswith("_") != (fq not in listed)):
+                        ctx.fail("internal-names", f"gapic_metadata {sname}/{tname}: {rpc_name} -> {mn} (listed={fq in listed})", payload)
 
 
 def t3_api(ctx, r, spec, nvar, label, variants=None):
@@ -988,7 +1142,7 @@ def t3_api(ctx, r, spec, nvar, label, variants=None):
     plan = call_plan(r, spec, codec)
     all_fq = all_methods(spec, PKG)
     meth_by_fq = {f"{PKG}.{s['name']}.{m['name']}": m for f, s in target_services(spec) for m in s["methods"]}
-    full = run_library(spec, files, api0, None, plan, {fq: snake(meth_by_fq[fq]["name"]) for fq in all_fq})
+    full = run_library(spec, files, api0, lib_doc(spec), plan, {fq: snake(meth_by_fq[fq]["name"]) for fq in all_fq})
     base_payload = {"kind": "t3", "spec": spec}
     if "gen_error" in full or full["import"].get("errors") or "classes" not in full["types"]:
         ctx.assume("the FULL library of a generated API generates and imports (C01's business); API skipped: %s" % str(full.get("gen_error") or full["import"].get("errors"))[:160])
@@ -996,25 +1150,25 @@ def t3_api(ctx, r, spec, nvar, label, variants=None):
         return
     full_types, _ = emitted_types(full, d)
     full_calls = {}
-    for sk, (sess, calls) in full["sessions"].items():
+    for (sk, kind), (sess, calls) in full["sessions"].items():
         for c, res_ in zip(calls, sess.get("calls", [])):
-            full_calls[c["fqn"]] = canon_call(res_, codec, plan[c["fqn"]])
+            full_calls[(c["fqn"], kind, bool(c.get("literal")))] = canon_call(res_, codec, plan[c["fqn"]])
     if variants is None:
         variants = [(spec["listed"], False), (spec["listed"], True)] + subsets(r, spec, max(0, nvar - 2))
     mres = ctx.driver.ask([{"op": "c16.third_pass", "api": gj, "settings": settings_json(service_yaml(spec, listed, internal)),
                             "proto_package": api0.naming.proto_package, "package": PKG} for listed, internal in variants])
     for (listed, internal), mo in zip(variants, mres):
         payload = dict(base_payload, listed=listed, internal=internal)
-        doc = service_yaml(spec, listed, internal)
+        doc = lib_doc(spec, listed, internal)
         kind, api_sel = build_selective(spec, files, doc)
         req_types, req_methods, req_services = d.reach(listed)
         required = {t for t in req_types if d.in_target(t)}
         hz = hazards(d, req_types) if not internal else []
         hkey = "nested-kept-parent-pruned" if hz else None
         feats = features(spec, d, listed, req_types)
-        ctx.case({"t3": True, "listed": listed, "internal": internal, "features": feats},
+        ctx.case({"t3": True, "listed": listed, "internal": internal, "features": feats, "rest": bool(spec.get("rest")), "mixins": bool(spec.get("mixins"))},
                  distinct_key=["t3", json.dumps(listed), internal, json.dumps(spec, sort_keys=True)])
-        ctx.count("t3_mode", "internal" if internal else "omit")
+        ctx.count("t3_mode", ("internal" if internal else "omit") + ("+rest" if spec.get("rest") else "") + ("+mixins" if spec.get("mixins") else ""))
         for ft in feats:
             ctx.count("t3_features", ft)
         if kind != "built":
@@ -1033,6 +1187,7 @@ def t3_api(ctx, r, spec, nvar, label, variants=None):
             ctx.fail(hkey or "import-error", f"the selective library does not import: {str(lib['import'].get('errors') or lib['import'])[:300]}", payload)
             continue
         # ---- services and RPC surface
+        want_rpcs = {}
         for f, s in target_services(spec):
             sk = f"{PKG}.{s['name']}"
             surf = lib["surface"][s["name"]]
@@ -1043,6 +1198,7 @@ def t3_api(ctx, r, spec, nvar, label, variants=None):
                 continue
             if not present:
                 continue
+            want_rpcs[s["name"]] = {m["name"] for m in s["methods"] if internal or f"{sk}.{m['name']}" in req_methods}
             unlisted = [m for m in s["methods"] if f"{sk}.{m['name']}" not in listed]
             prefix = "Base" if (internal and unlisted) else ""
             want_classes = {prefix + s["name"] + "Client", prefix + s["name"] + "AsyncClient"}
@@ -1068,6 +1224,13 @@ def t3_api(ctx, r, spec, nvar, label, variants=None):
                 if got != want:
                     ctx.fail("internal-names" if internal else "rpc-set",
                              f"{cn}: RPC methods {sorted(got)}, expected {sorted(want)}", payload)
+                # mixin methods and everything else public: exactly what the full library's class offers, minus
+                # the omitted RPCs and the path helpers of resources nobody needs any more
+                if set(members) & MIXIN_NAMES != fmembers & MIXIN_NAMES:
+                    ctx.fail("mixin-surface", f"{cn}: mixin methods {sorted(set(members) & MIXIN_NAMES)}, the full library has {sorted(fmembers & MIXIN_NAMES)}", payload)
+                novel = {n for n in members if not n.startswith("_")} - fmembers
+                if novel:
+                    ctx.fail("rpc-set", f"{cn}: public members the full library does not have: {sorted(novel)[:5]}", payload)
             # model correspondence: the model's kept methods and names
             if mo.get("outcome") == "built":
                 msvc = [x for p in mo["protos"] for x in p["services"] if x["name"] == s["name"]]
@@ -1086,6 +1249,7 @@ def t3_api(ctx, r, spec, nvar, label, variants=None):
                     mn = {n for n in mnames if n.lstrip("_") in fmembers or n in fmembers}
                     if set(members) & every != mn:
                         ctx.disagree("T3:c16.surface", f"{cn}: model {sorted(mn)} vs emitted {sorted(set(members) & every)}", payload)
+        metadata_oracle(ctx, spec, lib, full, want_rpcs, internal, listed, payload)
         # ---- types
         got_types, bad = emitted_types(lib, d)
         if "classes" not in lib["types"]:
@@ -1099,24 +1263,27 @@ def t3_api(ctx, r, spec, nvar, label, variants=None):
         allowed = want_types if not hz else {t for t in d.with_enclosing(req_types) if d.in_target(t)}
         if got_types - allowed:
             ctx.fail("type-extra", f"classes the listed RPCs cannot reach: {sorted(got_types - allowed)[:5]}", payload)
-        if mo.get("outcome") == "built" and not hz:
-            mtypes = {g.names[i] for p in mo["protos"] if p["name"].startswith("acme/lib/") for i in p["messages"] + p["enums"]}
+        if mo.get("outcome") == "built":
+            # the model's prediction of the emitted classes (top-level kept declarations and what is declared inside them)
+            mtypes = set()
+            for p in mo["protos"]:
+                if p["name"].startswith("acme/lib/"):
+                    mtypes |= {g.names[i] for i in p.get("emitted", p["messages"] + p["enums"])}
             if mtypes != got_types:
-                ctx.disagree("T3:c16.types", f"model keeps {sorted(mtypes ^ got_types)[:5]} differently from the emitted types package", payload)
+                ctx.disagree("T3:c16.types", f"model emits {sorted(mtypes ^ got_types)[:5]} differently from the emitted types package", payload)
         if hz:
             ctx.count("hazard", "t3:nested-type-without-enclosing-message")
-            if not bad and not (want_types - got_types):
-                pass
             continue
-        # ---- wire behaviour of the kept RPCs vs the full library
-        for sk, (sess, calls) in lib["sessions"].items():
+        # ---- wire behaviour of the kept RPCs vs the full library: sync gRPC, asyncio gRPC, REST
+        for (sk, skind), (sess, calls) in lib["sessions"].items():
             if "calls" not in sess:
-                ctx.fail("session-failed", f"{sk}: {str(sess)[-300:]}", payload)
+                ctx.fail("session-failed", f"{sk}/{skind}: {str(sess)[-300:]}", payload)
                 continue
             for c, res_ in zip(calls, sess["calls"]):
                 mine = canon_call(res_, codec, plan[c["fqn"]])
-                ref = full_calls.get(c["fqn"])
-                ctx.count("t3_calls", plan[c["fqn"]]["consume"] + (":raised " + str(mine["raised"]) if mine.get("raised") else ":ok"))
+                ref = full_calls.get((c["fqn"], skind, bool(c.get("literal"))))
+                ctx.count("t3_calls", skind + ":" + plan[c["fqn"]]["consume"] + ("-literal" if c.get("literal") else "") +
+                          (":raised " + str(mine["raised"]) if mine.get("raised") else ":ok"))
                 ctx.traces += 1
                 if ref is None:
                     continue
@@ -1124,7 +1291,7 @@ def t3_api(ctx, r, spec, nvar, label, variants=None):
                     continue        # the full library fails the same way: not this property's business
                 if mine != ref:
                     diff = [k for k in ("raised", "ok", "server", "stubs") if mine.get(k) != ref.get(k)]
-                    ctx.fail("wire-differs", f"{c['fqn']} ({c['method']}): {diff} differ from the full library; "
+                    ctx.fail("wire-differs", f"{c['fqn']} ({c['method']}, {skind}{', literal dict' if c.get('literal') else ''}): {diff} differ from the full library; "
                              f"selective {str(mine.get('raised') or mine.get(diff[0]))[:160]} / full {str(ref.get(diff[0]))[:160]}", dict(payload, call=c["fqn"]))
 
 # --------------------------------------------------------------------------------------------------
@@ -1267,7 +1434,7 @@ def run(ctx):
     ctx.exhaustive = {"all_subsets_of_small_apis": done}
     # ---- T3
     r = ctx.rng("t3")
-    for a in range(ctx.n(5, 62)):
+    for a in range(ctx.n(5, 50)):
         spec = gen_spec(r, t3=True)
         t3_api(ctx, r, spec, ctx.n(3, 4), f"t3-{a}")
     r = ctx.rng("t3ext")
